@@ -1,8 +1,8 @@
-// Copyright 2013 The Go Authors. All rights reserved.
-// Use of this source code is governed by a BSD-style
-// license that can be found in the LICENSE file.
+// Derived from golang.org/x/tools/go/ssa/interp (BSD licence, see LICENSE.xtools).
+// Modified: symbolic scalars (*Sym), symbolic byte strings, opaque strings,
+// insertion-ordered maps with symbolic keys, no reflection.
 
-package interp
+package symx
 
 // Values
 //
@@ -11,9 +11,9 @@ package interp
 //
 // - bool
 // - numbers (all built-in int/float/complex types are distinguished)
-// - string
-// - map[value]value --- maps for which  usesBuiltinMap(keyType)
-//   *hashmap        --- maps for which !usesBuiltinMap(keyType)
+// - *Sym --- a symbolic bool / integer / float (an SMT term plus its Go kind)
+// - string; sstr (byte string with symbolic bytes); ostr (opaque string)
+// - *omap --- maps (insertion ordered)
 // - chan value
 // - []value --- slices
 // - iface --- interfaces.
@@ -26,25 +26,19 @@ package interp
 // - tuple --- as returned by Return, Next, "value,ok" modes, etc.
 // - iter --- iterators from 'range' over map or string.
 // - bad --- a poison pill for locals that have gone out of scope.
-// - rtype -- the interpreter's concrete implementation of reflect.Type
 // - **deferred -- the address of a frame's defer stack for a Defer._Stack.
-//
-// Note that nil is not on this list.
-//
-// Pay close attention to whether or not the dynamic type is a pointer.
-// The compiler cannot help you since value is an empty interface.
+// - *native --- an opaque host object owned by an intrinsic (mutex, context ...)
 
 import (
 	"bytes"
 	"fmt"
 	"go/types"
-	"io"
-	"reflect"
-	"strings"
 	"unsafe"
 
 	"golang.org/x/tools/go/ssa"
 	"golang.org/x/tools/go/types/typeutil"
+
+	"gosmt/smt"
 )
 
 type value any
@@ -60,10 +54,27 @@ type iface struct {
 
 type structure []value
 
+// Sym is a symbolic scalar.
+type Sym struct {
+	T *smt.Term
+	K types.BasicKind // Bool, Int.., Uint.., Uintptr, Float32, Float64
+}
+
+// sstr is a string whose length is concrete and whose bytes may be symbolic.
+type sstr struct{ b []value }
+
+// ostr is an opaque string: only equality (and length-zero tests) are modelled.
+type ostr struct{ t *smt.Term }
+
+// native wraps host state used by intrinsics.
+type native struct {
+	kind string
+	v    any
+}
+
 // For map, array, *array, slice, string or channel.
 type iter interface {
 	// next returns a Tuple (key, value, ok).
-	// key and value are unaliased, e.g. copies of the sequence element.
 	next() tuple
 }
 
@@ -73,12 +84,6 @@ type closure struct {
 }
 
 type bad struct{}
-
-type rtype struct {
-	t types.Type
-}
-
-// Hash functions and equivalence relation:
 
 // hashString computes the FNV hash of s.
 func hashString(s string) int {
@@ -92,76 +97,7 @@ func hashString(s string) int {
 
 var hasher = typeutil.MakeHasher()
 
-// hashType returns a hash for t such that
-// types.Identical(x, y) => hashType(x) == hashType(y).
-func hashType(t types.Type) int {
-	return int(hasher.Hash(t))
-}
-
-// usesBuiltinMap returns true if the built-in hash function and
-// equivalence relation for type t are consistent with those of the
-// interpreter's representation of type t.  Such types are: all basic
-// types (bool, numbers, string), pointers and channels.
-//
-// usesBuiltinMap returns false for types that require a custom map
-// implementation: interfaces, arrays and structs.
-//
-// Panic ensues if t is an invalid map key type: function, map or slice.
-func usesBuiltinMap(t types.Type) bool {
-	switch t := t.(type) {
-	case *types.Basic, *types.Chan, *types.Pointer:
-		return true
-	case *types.Named, *types.Alias:
-		return usesBuiltinMap(t.Underlying())
-	case *types.Interface, *types.Array, *types.Struct:
-		return false
-	}
-	panic(fmt.Sprintf("invalid map key type: %T", t))
-}
-
-func (x array) eq(t types.Type, _y any) bool {
-	y := _y.(array)
-	tElt := t.Underlying().(*types.Array).Elem()
-	for i, xi := range x {
-		if !equals(tElt, xi, y[i]) {
-			return false
-		}
-	}
-	return true
-}
-
-func (x array) hash(t types.Type) int {
-	h := 0
-	tElt := t.Underlying().(*types.Array).Elem()
-	for _, xi := range x {
-		h += hash(t, tElt, xi)
-	}
-	return h
-}
-
-func (x structure) eq(t types.Type, _y any) bool {
-	y := _y.(structure)
-	tStruct := t.Underlying().(*types.Struct)
-	for i, n := 0, tStruct.NumFields(); i < n; i++ {
-		if f := tStruct.Field(i); !f.Anonymous() {
-			if !equals(f.Type(), x[i], y[i]) {
-				return false
-			}
-		}
-	}
-	return true
-}
-
-func (x structure) hash(t types.Type) int {
-	tStruct := t.Underlying().(*types.Struct)
-	h := 0
-	for i, n := 0, tStruct.NumFields(); i < n; i++ {
-		if f := tStruct.Field(i); !f.Anonymous() {
-			h += hash(t, f.Type(), x[i])
-		}
-	}
-	return h
-}
+func hashType(t types.Type) int { return int(hasher.Hash(t)) }
 
 // nil-tolerant variant of types.Identical.
 func sameType(x, y types.Type) bool {
@@ -171,87 +107,34 @@ func sameType(x, y types.Type) bool {
 	return y != nil && types.Identical(x, y)
 }
 
-func (x iface) eq(t types.Type, _y any) bool {
-	y := _y.(iface)
-	return sameType(x.t, y.t) && (x.t == nil || equals(x.t, x.v, y.v))
-}
-
-func (x iface) hash(outer types.Type) int {
-	return hashType(x.t)*8581 + hash(outer, x.t, x.v)
-}
-
-func (x rtype) hash(_ types.Type) int {
-	return hashType(x.t)
-}
-
-func (x rtype) eq(_ types.Type, y any) bool {
-	return types.Identical(x.t, y.(rtype).t)
-}
-
-// equals returns true iff x and y are equal according to Go's
-// linguistic equivalence relation for type t.
-// In a well-typed program, the dynamic types of x and y are
-// guaranteed equal.
-func equals(t types.Type, x, y value) bool {
-	switch x := x.(type) {
-	case bool:
-		return x == y.(bool)
-	case int:
-		return x == y.(int)
-	case int8:
-		return x == y.(int8)
-	case int16:
-		return x == y.(int16)
-	case int32:
-		return x == y.(int32)
-	case int64:
-		return x == y.(int64)
-	case uint:
-		return x == y.(uint)
-	case uint8:
-		return x == y.(uint8)
-	case uint16:
-		return x == y.(uint16)
-	case uint32:
-		return x == y.(uint32)
-	case uint64:
-		return x == y.(uint64)
-	case uintptr:
-		return x == y.(uintptr)
-	case float32:
-		return x == y.(float32)
-	case float64:
-		return x == y.(float64)
-	case complex64:
-		return x == y.(complex64)
-	case complex128:
-		return x == y.(complex128)
-	case string:
-		return x == y.(string)
-	case *value:
-		return x == y.(*value)
-	case chan value:
-		return x == y.(chan value)
+// isConcreteKey reports whether v contains no symbolic parts (so it can be hashed).
+func isConcreteKey(v value) bool {
+	switch v := v.(type) {
+	case *Sym, sstr, ostr:
+		return false
 	case structure:
-		return x.eq(t, y)
+		for _, e := range v {
+			if !isConcreteKey(e) {
+				return false
+			}
+		}
 	case array:
-		return x.eq(t, y)
+		for _, e := range v {
+			if !isConcreteKey(e) {
+				return false
+			}
+		}
 	case iface:
-		return x.eq(t, y)
-	case rtype:
-		return x.eq(t, y)
+		return isConcreteKey(v.v)
 	}
-
-	// Since map, func and slice don't support comparison, this
-	// case is only reachable if one of x or y is literally nil
-	// (handled in eqnil) or via interface{} values.
-	panic(fmt.Sprintf("comparing uncomparable type %s", t))
+	return true
 }
 
-// Returns an integer hash of x such that equals(x, y) => hash(x) == hash(y).
-// The outer type is used only for the "unhashable" panic message.
-func hash(outer, t types.Type, x value) int {
+// hashValue returns a hash of a concrete key.
+func hashValue(x value) int {
 	switch x := x.(type) {
+	case nil:
+		return 0
 	case bool:
 		if x {
 			return 1
@@ -292,25 +175,29 @@ func hash(outer, t types.Type, x value) int {
 	case *value:
 		return int(uintptr(unsafe.Pointer(x)))
 	case chan value:
-		return int(uintptr(reflect.ValueOf(x).Pointer()))
+		return 7
 	case structure:
-		return x.hash(t)
+		h := 0
+		for _, e := range x {
+			h = h*31 + hashValue(e)
+		}
+		return h
 	case array:
-		return x.hash(t)
+		h := 0
+		for _, e := range x {
+			h = h*31 + hashValue(e)
+		}
+		return h
 	case iface:
-		return x.hash(t)
-	case rtype:
-		return x.hash(t)
+		if x.t == nil {
+			return 0
+		}
+		return hashType(x.t)*8581 + hashValue(x.v)
+	case *native:
+		return int(uintptr(unsafe.Pointer(x)))
 	}
-	panic(fmt.Sprintf("unhashable type %v", outer))
+	panic(fmt.Sprintf("unhashable value %T", x))
 }
-
-// reflect.Value struct values don't have a fixed shape, since the
-// payload can be a scalar or an aggregate depending on the instance.
-// So store (and load) can't simply use recursion over the shape of the
-// rhs value, or the lhs, to copy the value; we need the static type
-// information.  (We can't make reflect.Value a new basic data type
-// because its "structness" is exposed to Go programs.)
 
 // load returns the value of type T in *addr.
 func load(T types.Type, addr *value) value {
@@ -354,56 +241,72 @@ func store(T types.Type, addr *value, v value) {
 	}
 }
 
+// copyVal makes a deep copy of the value-typed parts (structs, arrays) of v.
+func copyVal(v value) value {
+	switch v := v.(type) {
+	case structure:
+		a := make(structure, len(v))
+		for i := range v {
+			a[i] = copyVal(v[i])
+		}
+		return a
+	case array:
+		a := make(array, len(v))
+		for i := range v {
+			a[i] = copyVal(v[i])
+		}
+		return a
+	}
+	return v
+}
+
 // Prints in the style of built-in println.
-// (More or less; in gc println is actually a compiler intrinsic and
-// can distinguish println(1) from println(interface{}(1)).)
 func writeValue(buf *bytes.Buffer, v value) {
 	switch v := v.(type) {
 	case nil, bool, int, int8, int16, int32, int64, uint, uint8, uint16, uint32, uint64, uintptr, float32, float64, complex64, complex128, string:
 		fmt.Fprintf(buf, "%v", v)
-
-	case map[value]value:
+	case *Sym:
+		fmt.Fprintf(buf, "<sym#%d>", v.T.ID)
+	case sstr:
+		buf.WriteString("<sstr ")
+		for _, e := range v.b {
+			if c, ok := e.(uint8); ok {
+				buf.WriteByte(c)
+			} else {
+				buf.WriteByte('?')
+			}
+		}
+		buf.WriteString(">")
+	case ostr:
+		fmt.Fprintf(buf, "<ostr#%d>", v.t.ID)
+	case *omap:
 		buf.WriteString("map[")
 		sep := ""
-		for k, e := range v {
-			buf.WriteString(sep)
-			sep = " "
-			writeValue(buf, k)
-			buf.WriteString(":")
-			writeValue(buf, e)
-		}
-		buf.WriteString("]")
-
-	case *hashmap:
-		buf.WriteString("map[")
-		sep := " "
-		for _, e := range v.entries() {
-			for e != nil {
+		if v != nil {
+			for _, e := range v.entries {
+				if e.deleted {
+					continue
+				}
 				buf.WriteString(sep)
 				sep = " "
 				writeValue(buf, e.key)
 				buf.WriteString(":")
-				writeValue(buf, e.value)
-				e = e.next
+				writeValue(buf, e.val)
 			}
 		}
 		buf.WriteString("]")
-
 	case chan value:
 		fmt.Fprintf(buf, "%v", v) // (an address)
-
 	case *value:
 		if v == nil {
 			buf.WriteString("<nil>")
 		} else {
 			fmt.Fprintf(buf, "%p", v)
 		}
-
 	case iface:
 		fmt.Fprintf(buf, "(%s, ", v.t)
 		writeValue(buf, v.v)
 		buf.WriteString(")")
-
 	case structure:
 		buf.WriteString("{")
 		for i, e := range v {
@@ -413,7 +316,6 @@ func writeValue(buf *bytes.Buffer, v value) {
 			writeValue(buf, e)
 		}
 		buf.WriteString("}")
-
 	case array:
 		buf.WriteString("[")
 		for i, e := range v {
@@ -423,7 +325,6 @@ func writeValue(buf *bytes.Buffer, v value) {
 			writeValue(buf, e)
 		}
 		buf.WriteString("]")
-
 	case []value:
 		buf.WriteString("[")
 		for i, e := range v {
@@ -433,15 +334,9 @@ func writeValue(buf *bytes.Buffer, v value) {
 			writeValue(buf, e)
 		}
 		buf.WriteString("]")
-
 	case *ssa.Function, *ssa.Builtin, *closure:
 		fmt.Fprintf(buf, "%p", v) // (an address)
-
-	case rtype:
-		buf.WriteString(v.t.String())
-
 	case tuple:
-		// Unreachable in well-formed Go programs
 		buf.WriteString("(")
 		for i, e := range v {
 			if i > 0 {
@@ -450,13 +345,11 @@ func writeValue(buf *bytes.Buffer, v value) {
 			writeValue(buf, e)
 		}
 		buf.WriteString(")")
-
 	default:
 		fmt.Fprintf(buf, "<%T>", v)
 	}
 }
 
-// Implements printing of Go values in the style of built-in println.
 func toString(v value) string {
 	var b bytes.Buffer
 	writeValue(&b, v)
@@ -464,57 +357,171 @@ func toString(v value) string {
 }
 
 // ------------------------------------------------------------------------
-// Iterators
+// Ordered map
+
+type mentry struct {
+	key, val value
+	deleted  bool
+}
+
+type omap struct {
+	keyType  types.Type
+	entries  []*mentry
+	index    map[int][]*mentry // concrete keys only
+	symKeys  int               // number of live entries with symbolic keys
+	live     int
+	ndeleted int
+}
+
+func makeMap(kt types.Type) *omap {
+	return &omap{keyType: kt, index: map[int][]*mentry{}}
+}
+
+func (m *omap) len() int {
+	if m == nil {
+		return 0
+	}
+	return m.live
+}
+
+// find returns the entry whose key equals k (deciding symbolic equalities
+// through the machine), or nil.
+func (m *omap) find(mc *Machine, k value) *mentry {
+	if m == nil {
+		return nil
+	}
+	if isConcreteKey(k) && m.symKeys == 0 {
+		for _, e := range m.index[hashValue(k)] {
+			if !e.deleted && mc.eqConcrete(m.keyType, e.key, k) {
+				return e
+			}
+		}
+		return nil
+	}
+	for _, e := range m.entries {
+		if e.deleted {
+			continue
+		}
+		if mc.truth(mc.equals(m.keyType, e.key, k)) {
+			return e
+		}
+	}
+	return nil
+}
+
+func (m *omap) insert(mc *Machine, k, v value) {
+	if e := m.find(mc, k); e != nil {
+		e.val = v
+		return
+	}
+	e := &mentry{key: k, val: v}
+	m.entries = append(m.entries, e)
+	if isConcreteKey(k) {
+		h := hashValue(k)
+		m.index[h] = append(m.index[h], e)
+	} else {
+		m.symKeys++
+	}
+	m.live++
+}
+
+func (m *omap) delete(mc *Machine, k value) {
+	if m == nil {
+		return
+	}
+	e := m.find(mc, k)
+	if e == nil {
+		return
+	}
+	e.deleted = true
+	m.live--
+	m.ndeleted++
+	if !isConcreteKey(e.key) {
+		m.symKeys--
+	} else {
+		h := hashValue(e.key)
+		l := m.index[h]
+		for i := range l {
+			if l[i] == e {
+				l = append(l[:i:i], l[i+1:]...)
+				break
+			}
+		}
+		if len(l) == 0 {
+			delete(m.index, h)
+		} else {
+			m.index[h] = l
+		}
+	}
+	if m.ndeleted > 32 && m.ndeleted > m.live {
+		var ne []*mentry
+		for _, x := range m.entries {
+			if !x.deleted {
+				ne = append(ne, x)
+			}
+		}
+		m.entries = ne
+		m.ndeleted = 0
+	}
+}
+
+func (m *omap) clear() {
+	if m == nil {
+		return
+	}
+	for _, e := range m.entries {
+		e.deleted = true
+	}
+	m.entries = nil
+	m.index = map[int][]*mentry{}
+	m.symKeys, m.live, m.ndeleted = 0, 0, 0
+}
+
+type omapIter struct {
+	snap []*mentry
+	i    int
+}
+
+func (it *omapIter) next() tuple {
+	for it.i < len(it.snap) {
+		e := it.snap[it.i]
+		it.i++
+		if !e.deleted {
+			return tuple{true, e.key, e.val}
+		}
+	}
+	return tuple{false, nil, nil}
+}
+
+// ------------------------------------------------------------------------
+// String iterators
 
 type stringIter struct {
-	*strings.Reader
+	s string
 	i int
 }
 
 func (it *stringIter) next() tuple {
 	okv := make(tuple, 3)
-	ch, n, err := it.ReadRune()
-	ok := err != io.EOF
-	okv[0] = ok
-	if ok {
-		okv[1] = it.i
-		okv[2] = ch
+	if it.i >= len(it.s) {
+		okv[0] = false
+		return okv
 	}
-	it.i += n
+	okv[0] = true
+	okv[1] = it.i
+	for j, r := range it.s[it.i:] {
+		_ = j
+		okv[2] = r
+		n := len(string(r))
+		if r == 0xFFFD {
+			n = 1
+			// could be a genuine U+FFFD (3 bytes)
+			if len(it.s[it.i:]) >= 3 && it.s[it.i:it.i+3] == "�" {
+				n = 3
+			}
+		}
+		it.i += n
+		break
+	}
 	return okv
-}
-
-type mapIter struct {
-	iter *reflect.MapIter
-	ok   bool
-}
-
-func (it *mapIter) next() tuple {
-	it.ok = it.iter.Next()
-	if !it.ok {
-		return []value{false, nil, nil}
-	}
-	k, v := it.iter.Key().Interface(), it.iter.Value().Interface()
-	return []value{true, k, v}
-}
-
-type hashmapIter struct {
-	iter *reflect.MapIter
-	ok   bool
-	cur  *entry
-}
-
-func (it *hashmapIter) next() tuple {
-	for {
-		if it.cur != nil {
-			k, v := it.cur.key, it.cur.value
-			it.cur = it.cur.next
-			return []value{true, k, v}
-		}
-		it.ok = it.iter.Next()
-		if !it.ok {
-			return []value{false, nil, nil}
-		}
-		it.cur = it.iter.Value().Interface().(*entry)
-	}
 }
